@@ -705,8 +705,30 @@ def fit_predict_degenerate_bounded_instance(pinned=False):
 _instances_before_degenerate = instances
 
 
+def masked_underflow_pinned_instance():
+    """The input of a known finding, evaluated on every run: a frame in which an *inactive* class has a log-density more than 745 nats
+    above every active one (rank-deficient class next to a source-activity mask)."""
+    from pb_bss.distribution import mixture_model_utils as mmu
+
+    def make(B):
+        return {'d': B.given('d', np.zeros(1))}
+
+    def call(inp):
+        w = np.array([[0.5], [0.5]])
+        lp = np.array([[-1000.0, -3.0], [0.0, -1.0]])
+        act = np.array([[True, True], [False, True]])
+        return {'post': np.asarray(mmu.log_pdf_to_affiliation(w, lp, source_activity_mask=act, affiliation_eps=0.0)), 'act': act}
+
+    def ensures(sp, inp, out):
+        p, act = out['post'], out['act']
+        yield 'inactive-sources-exactly-zero', bool(np.all(p[~act] == 0))
+        yield 'frame-with-an-active-source-sums-to-one[inactive-class-dominates-by-1000-nats]', bool(np.allclose(p.sum(-2), 1.0, atol=1e-9))
+
+    return Instance('C01', F_AFF, 'pinned-known-finding-masked-underflow', make, call, ensures, mode='bounded', bounded_n=1, frame=False, fixed_seed=True)
+
+
 def instances(tier):       # noqa: F811
     # the E-step of the integration models with the inline aligner on: Bayes' rule with the stored weights on the re-paired streams
     from .c14 import integration_pa_bounded_instance
-    return _instances_before_degenerate(tier) + [integration_pa_bounded_instance('C01'), fit_predict_degenerate_bounded_instance(), fit_predict_degenerate_bounded_instance(pinned='cacg-zero-bin'),
+    return _instances_before_degenerate(tier) + [integration_pa_bounded_instance('C01'), masked_underflow_pinned_instance(), fit_predict_degenerate_bounded_instance(), fit_predict_degenerate_bounded_instance(pinned='cacg-zero-bin'),
                                                   fit_predict_degenerate_bounded_instance(pinned='cbmm-few-frames')]
